@@ -26,6 +26,10 @@ type c20Phase struct {
 	// Fault after the phase: "" | reset | silent | fatal, on server index FaultServer
 	Fault       string `json:"fault,omitempty"`
 	FaultServer int    `json:"fault_server,omitempty"`
+	// Change of the layout after the phase (connections stay healthy): "" | split | merge | move
+	Change       string `json:"change,omitempty"`
+	ChangeRegion int    `json:"change_region,omitempty"`
+	ChangeServer int    `json:"change_server,omitempty"`
 }
 
 type c20Case struct {
@@ -58,6 +62,7 @@ func c20RunInBubble(c c20Case) (out Outcome) {
 		cl.Stop()
 	}()
 	anyFault := false
+	layoutChanged := false
 	concurrentFirst := false
 	reuseAfterFailure := false
 	usedRegions := map[string]bool{}
@@ -141,6 +146,10 @@ func c20RunInBubble(c c20Case) (out Outcome) {
 			time.Sleep(50 * time.Millisecond)
 			cl.SetServer(addr, func(s *sim.ServerState) { s.Fatal = "" })
 		}
+		if ph.Change != "" {
+			c04Apply(cl, c.Layout.Table, addrs, c04Event{Kind: ph.Change, Region: ph.ChangeRegion, Server: ph.ChangeServer}, 50+pi)
+			layoutChanged = true
+		}
 		time.Sleep(time.Duration(1+pi) * 10 * time.Millisecond)
 	}
 	time.Sleep(2 * time.Minute) // let stragglers (provoking requests, re-establishments) finish
@@ -167,6 +176,9 @@ func c20RunInBubble(c c20Case) (out Outcome) {
 			}
 		}
 	}
+	if layoutChanged {
+		out.Labels = append(out.Labels, "layout_changed")
+	}
 	if !anyFault {
 		for addr, n := range okDials {
 			if n > 1 {
@@ -174,7 +186,7 @@ func c20RunInBubble(c c20Case) (out Outcome) {
 			}
 		}
 	}
-	out.NonTrivial = concurrentFirst || reuseAfterFailure
+	out.NonTrivial = concurrentFirst || reuseAfterFailure || layoutChanged
 	if concurrentFirst {
 		out.Labels = append(out.Labels, "concurrent_first_use")
 	}
@@ -212,8 +224,11 @@ func c20Gen(t *rapid.T) c20Case {
 		if rapid.IntRange(0, 4).Draw(t, "cache") == 0 {
 			ph.CacheRegions = c.Layout.Table
 		}
-		ph.Fault = rapid.SampledFrom([]string{"", "", "reset", "silent", "fatal"}).Draw(t, "fault")
+		ph.Fault = rapid.SampledFrom([]string{"", "", "", "reset", "silent", "fatal"}).Draw(t, "fault")
 		ph.FaultServer = rapid.IntRange(0, 3).Draw(t, "faultserver")
+		ph.Change = rapid.SampledFrom([]string{"", "", "split", "merge", "move"}).Draw(t, "change")
+		ph.ChangeRegion = rapid.IntRange(0, 11).Draw(t, "changeregion")
+		ph.ChangeServer = rapid.IntRange(0, 3).Draw(t, "changeserver")
 		c.Phases = append(c.Phases, ph)
 	}
 	return c
